@@ -107,8 +107,8 @@ def lowerClass (fl : IR.Flags) (invert : Bool) (items : List ES.ClassItem) : Exc
 /-! ## `v`-mode class sets (`consume_class_set_expression`, `consume_class_set_operand`) -/
 
 mutual
-/-- `consume_class_set_operand`; `neg`: inside a negated class (strings are rejected). -/
-def lowerVOperand (fl : IR.Flags) (neg : Bool) : ES.VOp → Except String Operand
+/-- `consume_class_set_operand`. -/
+def lowerVOperand (fl : IR.Flags) : ES.VOp → Except String Operand
   | .c c => .ok (.char c)
   | .r _ _ => .error "a class set range is not an operand"
   | .esc e => .ok (.esc (codepointsFromClass (classOfEsc e).1 (classOfEsc e).2 fl.icase))
@@ -121,77 +121,80 @@ def lowerVOperand (fl : IR.Flags) (neg : Bool) : ES.VOp → Except String Operan
         .ok (.esc (CPS.inverted cps))
       else .ok (.esc ivs)
     | .ok (.stringSet strs) =>
-      if pneg || neg then .error "Invalid character escape" else .ok (.strs strs)
+      if pneg then .error "Invalid character escape" else .ok (.strs strs)
   | .q strs =>
     if strs.isEmpty then .error "\\q{} without a ClassString"
-    else
-      match classStringSet neg strs {} with
-      | .error _ => .error "Negated class may not contain strings"
-      | .ok set => .ok (.cls set)
+    else .ok (.cls (classStringSet strs {}))
   | .cls negateSet op ops =>
     match (match op with
-           | .union => lowerVUnion fl (negateSet || neg) ops {}
-           | .inter => lowerVInterStart fl (negateSet || neg) ops
-           | .sub => lowerVSubStart fl (negateSet || neg) ops) with
+           | .union => lowerVUnion fl ops {}
+           | .inter => lowerVInterStart fl ops
+           | .sub => lowerVSubStart fl ops) with
     | .error e => .error e
     | .ok result =>
-      let result :=
-        if negateSet then
-          let cps := if fl.icase then Fold.addIcaseCodePoints result.cps else result.cps
-          { result with cps := CPS.inverted cps }
-        else result
-      .ok (.cls result)
+      if negateSet && result.mayContainStrings then .error "Negated class may not contain strings"
+      else
+        let result :=
+          if negateSet then
+            let result := result.absorbSingleCharacters
+            let cps := if fl.icase then Fold.addIcaseCodePoints result.cps else result.cps
+            { result with cps := CPS.inverted cps }
+          else result
+        .ok (.cls result)
 /-- `consume_class_set_expression` when `&&` follows the first operand. -/
-def lowerVInterStart (fl : IR.Flags) (neg : Bool) : List ES.VOp → Except String ClassSet
+def lowerVInterStart (fl : IR.Flags) : List ES.VOp → Except String ClassSet
   | o :: o2 :: os =>
-    match lowerVOperand fl neg o with
+    match lowerVOperand fl o with
     | .error e => .error e
     | .ok first =>
-      lowerVInter fl neg (o2 :: os) (({} : ClassSet).unionOperand (closeClassSetOperand fl.icase first))
+      lowerVInter fl (o2 :: os) (({} : ClassSet).unionOperand (closeClassSetOperand fl.icase first))
   | _ => .error "class set operator needs two operands"
 /-- `consume_class_set_expression` when `--` follows the first operand. -/
-def lowerVSubStart (fl : IR.Flags) (neg : Bool) : List ES.VOp → Except String ClassSet
+def lowerVSubStart (fl : IR.Flags) : List ES.VOp → Except String ClassSet
   | o :: o2 :: os =>
-    match lowerVOperand fl neg o with
+    match lowerVOperand fl o with
     | .error e => .error e
     | .ok first =>
-      lowerVSub fl neg (o2 :: os) (({} : ClassSet).unionOperand (closeClassSetOperand fl.icase first))
+      lowerVSub fl (o2 :: os) (({} : ClassSet).unionOperand (closeClassSetOperand fl.icase first))
   | _ => .error "class set operator needs two operands"
 /-- The `ClassSetOperator::Union` loop (a range is a member of the union only). -/
-def lowerVUnion (fl : IR.Flags) (neg : Bool) : List ES.VOp → ClassSet → Except String ClassSet
+def lowerVUnion (fl : IR.Flags) : List ES.VOp → ClassSet → Except String ClassSet
   | [], acc => .ok acc
   | .r lo hi :: os, acc =>
     if lo > hi then .error "Invalid class set range"
-    else lowerVUnion fl neg os { acc with cps := CPS.add acc.cps { first := lo, last := hi } }
+    else lowerVUnion fl os { acc with cps := CPS.add acc.cps { first := lo, last := hi } }
   | o :: os, acc =>
-    match lowerVOperand fl neg o with
+    match lowerVOperand fl o with
     | .error e => .error e
-    | .ok x => lowerVUnion fl neg os (acc.unionOperand x)
+    | .ok x => lowerVUnion fl os (acc.unionOperand x)
 /-- The `ClassSetOperator::Intersection` loop. -/
-def lowerVInter (fl : IR.Flags) (neg : Bool) : List ES.VOp → ClassSet → Except String ClassSet
+def lowerVInter (fl : IR.Flags) : List ES.VOp → ClassSet → Except String ClassSet
   | [], acc => .ok acc
   | o :: os, acc =>
-    match lowerVOperand fl neg o with
+    match lowerVOperand fl o with
     | .error e => .error e
-    | .ok x => lowerVInter fl neg os (acc.intersectOperand (closeClassSetOperand fl.icase x))
+    | .ok x => lowerVInter fl os (acc.intersectOperand (closeClassSetOperand fl.icase x))
 /-- The `ClassSetOperator::Subtraction` loop. -/
-def lowerVSub (fl : IR.Flags) (neg : Bool) : List ES.VOp → ClassSet → Except String ClassSet
+def lowerVSub (fl : IR.Flags) : List ES.VOp → ClassSet → Except String ClassSet
   | [], acc => .ok acc
   | o :: os, acc =>
-    match lowerVOperand fl neg o with
+    match lowerVOperand fl o with
     | .error e => .error e
-    | .ok x => lowerVSub fl neg os (acc.subtractOperand (closeClassSetOperand fl.icase x))
+    | .ok x => lowerVSub fl os (acc.subtractOperand (closeClassSetOperand fl.icase x))
 end
 
-/-- The `[` arm of `consume_term` under `v`: `consume_class_set_expression`, then `ClassSet::node`. -/
+/-- The `[` arm of `consume_term` under `v`: `consume_class_set_expression`, then `ClassSet::node`
+(a negated class whose contents MayContainStrings is an error). -/
 def lowerVClass (fl : IR.Flags) (negateSet : Bool) (op : ES.VSetOp) (ops : List ES.VOp) :
     Except String Node :=
   match (match op with
-         | .union => lowerVUnion fl negateSet ops {}
-         | .inter => lowerVInterStart fl negateSet ops
-         | .sub => lowerVSubStart fl negateSet ops) with
+         | .union => lowerVUnion fl ops {}
+         | .inter => lowerVInterStart fl ops
+         | .sub => lowerVSubStart fl ops) with
   | .error e => .error e
-  | .ok cs => .ok (cs.node fl.icase negateSet)
+  | .ok cs =>
+    if negateSet && cs.mayContainStrings then .error "Negated class may not contain strings"
+    else .ok (cs.node fl.icase negateSet)
 
 /-! ## Atoms -/
 
